@@ -25,26 +25,30 @@ def _sweep(args):
     bad = []
     n = 0
     for o2 in range(256):
-        f = F()
-        f.update(o1)
-        r = f.update(o2)
-        if (f.checksum ^ 0xFFFF) != r:
-            bad.append(("checksum_vs_update", o1, o2, r, f.checksum))
-        regs.append(r)
-        # residue: feed the complemented register low octet first -> is_good
-        g = F(); g.update(o1); g.update(o2)
-        c = g.checksum
-        g.update(c & 0xFF); g.update(c >> 8)
-        if not g.is_good:
-            bad.append(("residue", o1, o2, r))
-        for b in octs:
-            h = F(); h.update(o1); h.update(o2)
-            got = h.update(b)
-            exp = (r >> 8) ^ tab[(r ^ b) & 0xFF]
-            n += 1
-            if got != exp:
-                if len(bad) < 5:
-                    bad.append(("step", o1, o2, r, b, got, exp))
+        try:
+            f = F()
+            f.update(o1)
+            r = f.update(o2)
+            if (f.checksum ^ 0xFFFF) != r:
+                bad.append(("checksum_vs_update", o1, o2, r, f.checksum))
+            regs.append(r)
+            # residue: feed the complemented register low octet first -> is_good
+            g = F(); g.update(o1); g.update(o2)
+            c = g.checksum
+            g.update(c & 0xFF); g.update(c >> 8)
+            if not g.is_good:
+                bad.append(("residue", o1, o2, r))
+            for b in octs:
+                h = F(); h.update(o1); h.update(o2)
+                got = h.update(b)
+                exp = (r >> 8) ^ tab[(r ^ b) & 0xFF]
+                n += 1
+                if got != exp:
+                    if len(bad) < 5:
+                        bad.append(("step", o1, o2, r, b, got, exp))
+        except Exception as ex:  # noqa: BLE001 - an exception out of the public API is a mismatch with the definition
+            if len(bad) < 5:
+                bad.append(("raised", o1, o2, type(ex).__name__))
     return regs, bad, n
 
 
@@ -77,7 +81,10 @@ def run(chk: Check) -> int:
     from han.fastframecheck import FastFrameCheckSequence16 as F
     for v in ex["vectors"]:
         d = bytes(v["data"])
-        got = F.compute_checksum(d, 0, len(d))
+        try:
+            got = F.compute_checksum(d, 0, len(d))
+        except Exception:  # noqa: BLE001
+            got = -1
         chk.count("vec" + d.hex())
         if got != v["fcs"]:
             chk.violation("fcs-vector", f"compute_checksum({d.hex()}) = {got:#x}, RFC bit-serial = {v['fcs']:#x}",
@@ -142,8 +149,11 @@ def record(data: bytes, rng, force_windows=False) -> dict:
     f = F()
     steps = []
     for b in data:
-        ret = f.update(b)
-        steps.append({"ret": ret, "checksum": f.checksum, "good": bool(f.is_good)})
+        try:
+            ret = f.update(b)
+            steps.append({"ret": int(ret), "checksum": int(f.checksum), "good": bool(f.is_good)})
+        except Exception:  # noqa: BLE001
+            steps.append({"ret": -1, "checksum": -1, "good": False})
     wins = []
     n = len(data)
     cand = [(0, n), (0, 0), (n, 0)]
@@ -153,7 +163,10 @@ def record(data: bytes, rng, force_windows=False) -> dict:
             s = rng.randint(0, n)
             cand.append((s, rng.randint(0, n - s)))
     for s, ln in cand:
-        wins.append({"start": s, "length": ln, "ret": F.compute_checksum(data, s, ln)})
+        try:
+            wins.append({"start": s, "length": ln, "ret": int(F.compute_checksum(data, s, ln))})
+        except Exception:  # noqa: BLE001
+            wins.append({"start": s, "length": ln, "ret": -1})
     return {"id": stable_id("fcs", data.hex()), "canary": "", "data": list(data), "steps": steps, "windows": wins}
 
 
